@@ -91,7 +91,9 @@ SetAll(form) ==
                            names |-> [j \in 1..nparam |-> j], expect |-> <<>>])
     /\ UNCHANGED <<vars, nparam, nder>>
 SetOne(j) ==
-    /\ Len(obs) < MaxObs /\ AllBoundL /\ j \in 1..nparam
+    /\ Len(obs) < MaxObs /\ j \in 1..nparam
+    /\ \A k \in 1..nparam : k # j => bound[k] # <<0, 0>>      \* a partial update presupposes the OTHER values (j itself may be a
+                                                               \* parameter that was declared after the last full assignment)
     /\ bound' = [bound EXCEPT ![j] = <<Step, j>>]
     /\ obs' = Append(obs, [act |-> "SetParams", k |-> 0, route |-> "dict", e |-> "", names |-> <<j>>, expect |-> <<>>])
     /\ UNCHANGED <<vars, nparam, nder>>
